@@ -18,7 +18,39 @@ use tinylfu_cached::cache::verif::{Role, Snapshot};
 use crate::rt::{self, recorder, role_index, ThreadMarks, VClock, Waited};
 use crate::util::J;
 
+#[cfg(not(feature = "typed"))]
 pub type Cache = CacheD<u64, u64>;
+#[cfg(not(feature = "typed"))]
+pub type K = u64;
+#[cfg(not(feature = "typed"))]
+pub type V = u64;
+#[cfg(not(feature = "typed"))]
+pub fn mk_key(id: u64) -> K { id }
+#[cfg(not(feature = "typed"))]
+pub fn mk_val(token: u64) -> V { token }
+#[cfg(not(feature = "typed"))]
+pub fn tok(value: &V) -> u64 { *value }
+#[cfg(not(feature = "typed"))]
+fn new_cache(config: tinylfu_cached::cache::config::Config<K, V>) -> Cache { CacheD::new(config) }
+
+// the typed flavours (see typed.rs): a real CacheD<TKey, TVal> behind the same u64 surface
+#[cfg(feature = "typed")]
+pub use crate::typed::Cache;
+#[cfg(feature = "typed")]
+pub type K = crate::typed::TKey;
+#[cfg(feature = "typed")]
+pub type V = crate::typed::TVal;
+#[cfg(feature = "typed")]
+pub fn mk_key(id: u64) -> K { crate::typed::TKey::of(id) }
+#[cfg(feature = "typed")]
+pub fn mk_val(token: u64) -> V { crate::typed::TVal::of(token) }
+#[cfg(feature = "typed")]
+pub fn tok(value: &V) -> u64 { value.token() }
+#[cfg(feature = "typed")]
+fn new_cache(config: tinylfu_cached::cache::config::Config<K, V>) -> Cache { Cache::new(config) }
+#[cfg(feature = "typed")]
+#[allow(dead_code)]
+fn unused_import() { let _ = std::mem::size_of::<CacheD<u64, u64>>(); }
 
 #[derive(Clone, Copy, Debug, PartialEq, Eq)]
 pub enum WeightMode {
@@ -95,10 +127,16 @@ pub fn build_cache(cfg: &SutCfg) -> (Arc<Cache>, VClock) {
         .ttl_tick_duration(cfg.tick)
         .clock(Box::new(clock.clone()));
     if cfg.weight_mode == WeightMode::Custom {
-        builder = builder.weight_calculation_fn(Box::new(|_key: &u64, value: &u64, with_ttl| computed_weight(WeightMode::Custom, *value, with_ttl)));
+        builder = builder.weight_calculation_fn(Box::new(|_key: &K, value: &V, with_ttl| computed_weight(WeightMode::Custom, tok(value), with_ttl)));
+    }
+    // `big` flavour: the value carries an inline page, so the crate's own calculation would answer tens of thousands; the scenarios' capacity
+    // arithmetic assumes the 40 / 64 of a u64 pair, which is what this function answers (the crate's calculation is exercised by the other flavours)
+    #[cfg(feature = "big")]
+    if cfg.weight_mode == WeightMode::Default {
+        builder = builder.weight_calculation_fn(Box::new(|_key: &K, _value: &V, with_ttl| computed_weight(WeightMode::Default, 0, with_ttl)));
     }
     if cfg.hash_mode == HashMode::Constant {
-        builder = builder.key_hash_fn(Box::new(|_key: &u64| 42));
+        builder = builder.key_hash_fn(Box::new(|_key: &K| 42));
     }
     // every second cache of the process gets its public configuration fields (clock, cache weight, counters, queue size, the two functions)
     // assigned AFTER build(), the builder having been given throw-away values: both ways of configuring must give the same cache
@@ -112,11 +150,13 @@ pub fn build_cache(cfg: &SutCfg) -> (Arc<Cache>, VClock) {
         late.total_cache_weight = cfg.max_weight;
         late.counters = cfg.counters;
         late.command_buffer_size = cfg.cmd_buf;
-        if cfg.weight_mode == WeightMode::Custom { late.weight_calculation_fn = Box::new(|_key: &u64, value: &u64, with_ttl| computed_weight(WeightMode::Custom, *value, with_ttl)); }
-        if cfg.hash_mode == HashMode::Constant { late.key_hash_fn = Box::new(|_key: &u64| 42); }
-        return (Arc::new(CacheD::new(late)), clock);
+        if cfg.weight_mode == WeightMode::Custom { late.weight_calculation_fn = Box::new(|_key: &K, value: &V, with_ttl| computed_weight(WeightMode::Custom, tok(value), with_ttl)); }
+        #[cfg(feature = "big")]
+        if cfg.weight_mode == WeightMode::Default { late.weight_calculation_fn = Box::new(|_key: &K, _value: &V, with_ttl| computed_weight(WeightMode::Default, 0, with_ttl)); }
+        if cfg.hash_mode == HashMode::Constant { late.key_hash_fn = Box::new(|_key: &K| 42); }
+        return (Arc::new(new_cache(late)), clock);
     }
-    let cache = Arc::new(CacheD::new(builder.build()));
+    let cache = Arc::new(new_cache(builder.build()));
     (cache, clock)
 }
 
@@ -380,14 +420,14 @@ pub fn issue(cache: &Cache, op: &WriteOp) -> Issued {
         WriteOp::Upsert { key, value, weight, ttl, remove_ttl } => {
             // the setters of the request builder are called in varying order (derived from the value), and now and then a provisional value is
             // set first and overridden: what is built must be the same request
-            let mut builder = PutOrUpdateRequestBuilder::new(*key);
+            let mut builder = PutOrUpdateRequestBuilder::new(mk_key(*key));
             let order = value.unwrap_or(*key) % 3;
-            if order == 2 { if let Some(value) = value { builder = builder.value(value ^ 0x5a5a).value(*value); } }
-            if order == 0 { if let Some(value) = value { builder = builder.value(*value); } }
+            if order == 2 { if let Some(value) = value { builder = builder.value(mk_val(value ^ 0x5a5a)).value(mk_val(*value)); } }
+            if order == 0 { if let Some(value) = value { builder = builder.value(mk_val(*value)); } }
             if let Some(weight) = weight { builder = builder.weight(*weight); }
             if let Some(ttl) = ttl { builder = builder.time_to_live(*ttl); }
             if *remove_ttl { builder = builder.remove_time_to_live(); }
-            if order == 1 { if let Some(value) = value { builder = builder.value(*value); } }
+            if order == 1 { if let Some(value) = value { builder = builder.value(mk_val(*value)); } }
             cache.put_or_update(builder.build())
         }
         WriteOp::Delete { key } => cache.delete(*key),
@@ -405,9 +445,9 @@ pub const READ_VARIANTS: [&str; 7] = ["get", "get_ref", "map_get", "map_get_ref"
 pub fn read(cache: &Cache, variant: usize, key: u64) -> Option<u64> {
     match variant % 7 {
         0 => cache.get(&key),
-        1 => cache.get_ref(&key).map(|r| *r.value().value_ref()),
+        1 => cache.get_ref(&key).map(|r| tok(r.value().value_ref())),
         2 => cache.map_get(&key, |v| v ^ 0x5555).map(|v| v ^ 0x5555),
-        3 => cache.map_get_ref(&key, |stored| stored.value()),
+        3 => cache.map_get_ref(&key, |stored| tok(&stored.value())),
         4 => cache.multi_get(vec![&key]).remove(&key).flatten(),
         5 => cache.multi_get_iterator(vec![&key]).next().flatten(),
         _ => cache.multi_get_map_iterator(vec![&key], |v| v.wrapping_add(1)).next().flatten().map(|v| v.wrapping_sub(1)),
@@ -448,7 +488,7 @@ pub fn read_multi_raw(cache: &Cache, variant: usize, keys: &[u64]) -> Vec<Option
 
 /// value and expiry (ns) as seen through `get_ref`
 pub fn read_ref(cache: &Cache, key: u64) -> Option<(u64, Option<u128>)> {
-    cache.get_ref(&key).map(|r| (*r.value().value_ref(), r.value().expire_after().map(rt::ns_of)))
+    cache.get_ref(&key).map(|r| (tok(r.value().value_ref()), r.value().expire_after().map(rt::ns_of)))
 }
 
 pub fn status_name(status: &CommandStatus) -> String {
